@@ -53,3 +53,14 @@ package quicmemberlist
 //@ func (Member).Address
 //@   pure
 //@   ensures r0 != nil
+
+//@ func (*membersPool).Remove
+//@   prop C37
+//@   requires m.addrs != nil && m.members != nil && k != nil
+//@   requires mhas(m.addrs, memberid(k)) ==> mval(m.addrs, memberid(k), Member) != nil
+//@   requires forall(string(n), mhas(m.members, n) ==> forall(j, 0 <= j && j < len(mval(m.members, n, []Member)) ==> mval(m.members, n, []Member)[j] != nil))
+//@   modifies mview(m.addrs), mview(m.members), *
+//@   ensures [absent] r1 == nil ==> !mhas(m.addrs, memberid(k)) && r0 == old(mhas(m.addrs, memberid(k)))
+//@   ensures [other-addresses] forall(string(q), q != memberid(k) ==> mhas(m.addrs, q) == old(mhas(m.addrs, q)) && mval(m.addrs, q, Member) == old(mval(m.addrs, q, Member)))
+//@   ensures [node-keeps-others] old(mhas(m.addrs, memberid(k))) && old(mhas(m.members, mval(m.addrs, memberid(k), Member).Address().String())) ==> forall(i, 0 <= i && i < len(old(mval(m.members, mval(m.addrs, memberid(k), Member).Address().String(), []Member))) && memberid(old(mval(m.members, mval(m.addrs, memberid(k), Member).Address().String(), []Member)[i]).Addr()) != memberid(k) ==> mhas(m.members, old(mval(m.addrs, memberid(k), Member).Address().String())) && exists(j, 0 <= j && j < len(mval(m.members, old(mval(m.addrs, memberid(k), Member).Address().String()), []Member)) && mval(m.members, old(mval(m.addrs, memberid(k), Member).Address().String()), []Member)[j] == old(mval(m.members, mval(m.addrs, memberid(k), Member).Address().String(), []Member)[i])))
+//@   ensures [other-nodes] forall(string(n), old(mhas(m.addrs, memberid(k))) && n != old(mval(m.addrs, memberid(k), Member).Address().String()) ==> mhas(m.members, n) == old(mhas(m.members, n)) && mval(m.members, n, []Member) == old(mval(m.members, n, []Member)))
